@@ -214,7 +214,8 @@ def oracle_islands(sf, kw, raw=None):
     gd = sf.global_data
     if raw is not None:
         # independent of the maps the pipeline ended up with: the image as written, the forced background, unit noise
-        data = np.array(raw, dtype=np.float32).astype(float) - float(kw["bkg"])
+        # (the image is held in single precision and the constant is subtracted in single precision)
+        data = (np.array(raw, dtype=np.float32) - np.float32(kw["bkg"])).astype(float)
         isl = find_islands(im=data, bkg=np.zeros_like(data), rms=np.ones_like(data), seed_clip=kw["innerclip"],
                            flood_clip=min(kw["outerclip"], kw["innerclip"]))
         gd = type("G", (), {"img": data})()
